@@ -86,8 +86,11 @@ impl Case10 {
                 if is_discard(&p) {
                     return e("discard", p);
                 }
-                let kind = if matches!(s, Step::Backward { .. }) { "panic-in-backward" } else { "unexpected-panic" };
-                return e(kind, format!("step {} ({}) panicked: {}\nhistory: {}", i, step_name(s), p, hist_sample(&self.hist)));
+                // a pass that panics only because of what ran before it is a violation; one that panics alone is not judged here
+                if matches!(s, Step::Backward { .. }) && alone(&self.hist, i).is_ok() {
+                    return e("panic-after-history", format!("step {} ({}) panicked: {} - the same pass runs when it is executed alone on a fresh instance\nhistory: {}", i, step_name(s), p, hist_sample(&self.hist)));
+                }
+                return e("discard", format!("step {} panicked: {}", i, p));
             }
             if m.handles.len() != ex.slots.len() {
                 return e("internal", "slot count".into());
@@ -101,7 +104,7 @@ impl Case10 {
                     let single = match alone(&self.hist, i) {
                         Ok(g) => g,
                         Err(p) if is_discard(&p) => return e("discard", p),
-                        Err(p) => return e("panic-alone", format!("the pass of step {} panicked when run alone on a fresh instance: {}", i, p)),
+                        Err(p) => return e("panic-only-alone", format!("the pass of step {} ran inside the history but panicked when run alone on a fresh instance: {}", i, p)),
                     };
                     for (n, g) in single {
                         if let Some(g) = g {
